@@ -378,6 +378,9 @@ class Parser:
             else:
                 return e
 
+    def peek_let_else(self):
+        return False
+
     def block(self):
         self.expect_op("{")
         stmts = []
@@ -392,7 +395,14 @@ class Parser:
                     self.type_text()
                 init = None
                 if self.eat_op("="):
-                    init = self.expr()
+                    init = self.expr(nostruct=self.peek_let_else())
+                if self.at_kw("else"):
+                    # `let PAT = EXPR else { diverging block };`
+                    self.take()
+                    els = self.block()
+                    self.expect_op(";")
+                    stmts.append(("letelse", pat, init, els))
+                    continue
                 self.expect_op(";")
                 stmts.append(("let", pat, init))
                 continue
